@@ -145,6 +145,7 @@ type EvmWorld struct {
 	N       *Node
 	Roles   map[string]Key // S, T, W, ...
 	Created common.Address // address of the contract created by a top-level "create" (N0)
+	NAddrs  map[string]common.Address // addresses of the contracts created by nested "create" ops (N<id>)
 }
 
 func (w *EvmWorld) contractAddr(id int) common.Address {
@@ -167,6 +168,11 @@ func (w *EvmWorld) addrOf(name string, self common.Address) common.Address {
 		return w.recorderAddr()
 	case name == "N0":
 		return w.Created
+	case strings.HasPrefix(name, "N"):
+		if a, ok := w.NAddrs[name]; ok {
+			return a
+		}
+		panic("address of " + name + " is not known yet")
 	case strings.HasPrefix(name, "C"):
 		var id int
 		fmt.Sscanf(name, "C%d", &id)
@@ -255,6 +261,7 @@ func (w *EvmWorld) compileBody(self common.Address, body, alt []Op, out map[comm
 func (w *EvmWorld) compileBodyD(self common.Address, body, alt []Op, out map[common.Address][]byte, depth int) error {
 	a := newAsm()
 	rec := w.recorderAddr()
+	var emitRecord func(o Op)
 	emitCall := func(o Op, target common.Address, data []byte, argLen int, value *big.Int, gasCap int) {
 		n := argLen
 		if len(data) > 0 {
@@ -278,7 +285,10 @@ func (w *EvmWorld) compileBodyD(self common.Address, body, alt []Op, out map[com
 			a.op(0x5a) // GAS
 		}
 		a.op(0xf1) // CALL
-		// record success + 1 under the op id in the recorder contract
+		emitRecord(o)
+	}
+	emitRecord = func(o Op) {
+		// (success flag on the stack) record success + 1 under the op id in the recorder contract
 		a.op(0x80) // DUP1
 		a.push1(1)
 		a.op(0x01) // ADD
@@ -339,6 +349,34 @@ func (w *EvmWorld) compileBodyD(self common.Address, body, alt []Op, out map[com
 					}
 				}
 				emitCall(o, target, nil, 0, value, gcap)
+			case "create":
+				// CREATE inside the tree: the constructor is the compiled body, the created contract gets no runtime
+				// code; its address follows from the creator's nonce (0 for an installed contract, one CREATE per body)
+				child := ethcrypto.CreateAddress(self, 0)
+				if w.NAddrs == nil {
+					w.NAddrs = map[string]common.Address{}
+				}
+				w.NAddrs[fmt.Sprintf("N%d", o.ID)] = child
+				tmp := map[common.Address][]byte{}
+				if err := w.compileBodyD(child, o.Body, nil, tmp, depth+1); err != nil {
+					return err
+				}
+				for k, v := range tmp {
+					if k != child {
+						out[k] = v
+					}
+				}
+				init := tmp[child]
+				a.push2(len(init))
+				a.pushData(init)
+				a.push1(0)
+				a.op(0x39) // CODECOPY(dest=0, off, len)
+				a.push2(len(init))
+				a.push1(0)
+				a.push32(value)
+				a.op(0xf0)       // CREATE(value, 0, len) -> address or 0
+				a.op(0x15, 0x15) // ISZERO ISZERO: 1 if created
+				emitRecord(o)
 			case "recall":
 				// re-enter an existing contract of the tree through its alt entry point
 				rcap := 0
@@ -409,6 +447,25 @@ func (w *EvmWorld) InstallCode(ctx sdk.Context, addr common.Address, code []byte
 	return k.SetAccount(ctx, addr, statedb.Account{Nonce: acct.Nonce, Balance: acct.Balance, CodeHash: acct.CodeHash})
 }
 
+// PrepareNAddrs computes the addresses of the contracts that nested "create" ops will create (the creator is an
+// installed contract with nonce 0 and performs at most one CREATE).
+func (w *EvmWorld) PrepareNAddrs(self common.Address, body []Op) {
+	if w.NAddrs == nil {
+		w.NAddrs = map[string]common.Address{}
+	}
+	for _, o := range body {
+		switch {
+		case o.Op == "call" && len(o.Body) > 0:
+			w.PrepareNAddrs(w.contractAddr(o.ID), o.Body)
+			w.PrepareNAddrs(w.contractAddr(o.ID), o.Alt)
+		case o.Op == "create":
+			child := ethcrypto.CreateAddress(self, 0)
+			w.NAddrs[fmt.Sprintf("N%d", o.ID)] = child
+			w.PrepareNAddrs(child, o.Body)
+		}
+	}
+}
+
 // opIDs lists the ids of all ops of a tree with the contract that executes them.
 func opFrames(self string, body []Op, out map[int]string) {
 	for _, o := range body {
@@ -416,6 +473,9 @@ func opFrames(self string, body []Op, out map[int]string) {
 		if o.Op == "call" && len(o.Body) > 0 {
 			opFrames(fmt.Sprintf("C%d", o.ID), o.Body, out)
 			opFrames(fmt.Sprintf("C%d", o.ID), o.Alt, out)
+		}
+		if o.Op == "create" && len(o.Body) > 0 {
+			opFrames(fmt.Sprintf("N%d", o.ID), o.Body, out)
 		}
 	}
 }
